@@ -9,6 +9,7 @@
 //	c03 exec <in.wat>                              stdin: one call per line "<export> <mode> <hexarg>*" ->
 //	                                               "v <hex64>" | "v -" | "trap <class>"  [ " m <fnv64 of memory>" when mode=m ]
 //	                                               mode n: plain call; mode m: memory is first reset to the fixed pattern
+//	c03 exec <in.wat> fresh                        the same with a fresh instance for every call
 //	c03 build <file.wa> <out.wat>                  api.BuildFile (the real compiler); prints main function name
 //	c03 runwat <in.wat> <mainFunc>                 run a whole compiler-produced module on the embedded runtime; prints its output
 package main
@@ -74,7 +75,7 @@ func trapClass(err error) string {
 	return "other:" + oneLine(s)
 }
 
-func execCalls(watFile string) int {
+func execCalls(watFile string, fresh bool) int {
 	src, err := os.ReadFile(watFile)
 	if err != nil {
 		fmt.Println("INFRA", err)
@@ -98,6 +99,7 @@ func execCalls(watFile string) int {
 		fmt.Println("INFRA wazero instantiate:", oneLine(err.Error()))
 		return 2
 	}
+	ninst := 0
 	var pat []byte
 	if mem := mod.Memory(); mem != nil {
 		pat = make([]byte, mem.Size(ctx))
@@ -108,6 +110,14 @@ func execCalls(watFile string) int {
 	vh.Loop(func(f []string, line string) string {
 		if len(f) < 2 {
 			return "bad-op"
+		}
+		if fresh { // a new instance for every call (memory.grow rows)
+			mod.Close(ctx)
+			ninst++
+			mod, err = rt.InstantiateModule(ctx, cm, wazero.NewModuleConfig().WithName(fmt.Sprintf("m%d", ninst)))
+			if err != nil {
+				return "INFRA wazero instantiate: " + oneLine(err.Error())
+			}
 		}
 		fn := mod.ExportedFunction(f[0])
 		if fn == nil {
@@ -188,7 +198,7 @@ func main() {
 			}
 		}
 	case "exec":
-		os.Exit(execCalls(os.Args[2]))
+		os.Exit(execCalls(os.Args[2], len(os.Args) > 3 && os.Args[3] == "fresh"))
 	case "build":
 		src, err := os.ReadFile(os.Args[2])
 		if err != nil {
